@@ -53,6 +53,16 @@ pub fn boundaries() -> Vec<u64> {
 
 /// digit-biased random number with 1..=max_digits digits
 pub fn random_number(rng: &mut Rng, max_digits: u32) -> u64 {
+    if rng.chance(1, 12) {
+        // the longest spellings: no zero digit, digits whose words are long in most languages (777 777 is one 65-byte
+        // word in German), full length or a multiple of three digits
+        let len = if rng.chance(1, 2) { max_digits } else { (3 * (1 + rng.below(4) as u32)).min(max_digits) };
+        let mut n: u64 = 0;
+        for _ in 0..len {
+            n = n * 10 + *rng.pick(&[7u64, 7, 7, 7, 5, 3, 4, 9, 6, 7]);
+        }
+        return n;
+    }
     let len = 1 + rng.below(max_digits as u64) as u32;
     let mut n: u64 = 0;
     for i in 0..len {
@@ -156,7 +166,8 @@ pub fn noise_text(toks: &[NoiseTok]) -> String {
     s
 }
 
-const SALT: [&str; 22] = [
+const SALT: [&str; 28] = [
+    "\u{feff}", "\u{200e}", "\u{200f}", "\u{2060}", "\u{180e}", "\u{fffd}",
     "é", "ñ", "ß", "İ", "ǅ", "ﬁ", "e\u{301}", "a\u{308}\u{323}", "日本語", "数字", "😀", "👨‍👩‍👧", "\u{202e}", "\u{0}", "\u{200b}", "١٢٣", "४२", "123", "3", "०", "Ω", "ı",
 ];
 
